@@ -378,6 +378,66 @@ class Ctx:
         return 1 if self.violations else 0
 
 
+# ----------------------------------------------------------------------------- source pins
+def _norm_func_src(path, qualname):
+    """Normalised source of a function/method/class (docstrings and logger calls removed), or None."""
+    import ast
+    tree = ast.parse(open(path).read())
+    node = tree
+    for part in qualname.split("."):
+        found = None
+        for n in ast.walk(node) if node is tree else ast.iter_child_nodes(node):
+            if isinstance(n, (ast.FunctionDef, ast.AsyncFunctionDef, ast.ClassDef)) and n.name == part:
+                found = n
+                break
+        if found is None:
+            return None
+        node = found
+
+    class Strip(ast.NodeTransformer):
+        def _body(self, n):
+            self.generic_visit(n)
+            b = n.body
+            if b and isinstance(b[0], ast.Expr) and isinstance(getattr(b[0], "value", None), ast.Constant) \
+                    and isinstance(b[0].value.value, str):
+                b = b[1:]
+            b = [st for st in b if not (isinstance(st, ast.Expr) and isinstance(st.value, ast.Call)
+                                        and ast.unparse(st.value.func).startswith("logger."))]
+            n.body = b or [ast.Pass()]
+            return n
+        visit_FunctionDef = _body
+        visit_AsyncFunctionDef = _body
+        visit_ClassDef = _body
+
+        def visit_If(self, n):
+            self.generic_visit(n)
+            n.body = [st for st in n.body if not (isinstance(st, ast.Expr) and isinstance(st.value, ast.Call)
+                                                  and ast.unparse(st.value.func).startswith("logger."))] or [ast.Pass()]
+            return n
+    return ast.unparse(Strip().visit(node))
+
+
+def source_pins(pid, pins, update=False):
+    """pins: list of (path relative to the repo, qualified name) of the functions a HAND-WRITTEN model
+    was written from.  The normalised source hash of each is stored in /verif/coq/<pid>/pins.json
+    (committed).  Returns the list of pins whose source changed (or disappeared) since the model
+    was written -- the tie of a hand model to the code is then no longer shown and the check must
+    search for a failing input and report (DESIGN section 3).  `update=True` rewrites the file
+    (only the lead does this, after re-syncing the model to an accepted change of /repo)."""
+    pfile = os.path.join(COQ, pid, "pins.json")
+    cur = {}
+    for rel, qn in pins:
+        src = _norm_func_src(os.path.join(REPO, rel), qn)
+        cur[f"{rel}::{qn}"] = None if src is None else hashlib.sha256(src.encode()).hexdigest()
+    if update or not os.path.exists(pfile):
+        if update:
+            json.dump(cur, open(pfile, "w"), indent=1, sort_keys=True)
+            return []
+        return [k + " (no pins.json recorded)" for k in cur]
+    old = json.load(open(pfile))
+    return sorted(k for k in cur if old.get(k) != cur[k])
+
+
 def shrink_list(xs, fails, max_steps=200):
     """Delta-debugging style list minimisation: smallest sub-list for which fails(sub) is True."""
     xs = list(xs)
